@@ -876,6 +876,17 @@ def rule_alias(ctx):
         readers = [g for g in ka.gvars if g in ('rhs.data', 'rhs_data') or getattr(ka, 'alias_of', {}).get(g) in ('rhs.data',)]
         # names bound to the object itself (`retval = self`) write the same storage
         ws = ['self.data'] + sorted(g for g in ka.gvars if getattr(ka, 'alias_of', {}).get(g) == 'self.data')
+        # the pair returned by `_broadcast_arrays(self.data, rhs.data)` are views of the two operands (whatever the locals are called)
+        for st in walk_no_nested(fi.node):
+            if isinstance(st, ast.Assign) and len(st.targets) == 1 and isinstance(st.targets[0], ast.Tuple) and len(st.targets[0].elts) == 2 \
+                    and all(isinstance(e_, ast.Name) for e_ in st.targets[0].elts) and isinstance(st.value, ast.Call) \
+                    and (dotted_name(st.value.func) or '').split('.')[-1] in ('_broadcast_arrays', 'broadcast_arrays') and len(st.value.args) == 2:
+                a0, a1 = norm(st.value.args[0]), norm(st.value.args[1])
+                t0, t1 = st.targets[0].elts[0].id, st.targets[0].elts[1].id
+                if a0 == 'self.data' and t0 in ka.gvars and t0 not in ws:
+                    ws.append(t0)
+                if a1 in ('rhs.data', '%s.data' % (fi.params[1] if len(fi.params) > 1 else 'rhs')) and t1 in ka.gvars and t1 not in readers:
+                    readers.append(t1)
         for st in walk_no_nested(fi.node):
             if isinstance(st, ast.Assign) and isinstance(st.value, ast.Name) and st.value.id == 'self':
                 for t in st.targets:
